@@ -29,7 +29,7 @@ def log(*a):
 
 def sh(cmd, timeout=None, env=None, cwd=None, input=None):
     e = dict(os.environ)
-    e.update({"CARGO_NET_OFFLINE": "true"})
+    e.update({"CARGO_NET_OFFLINE": "true", "RUST_BACKTRACE": "0"})
     if env:
         e.update(env)
     try:
